@@ -133,6 +133,13 @@ impl Sim {
             _ => {
                 if let Some(k) = kind {
                     if !s_kind_independent(k) {
+                        // dependent events are buffered and leave only behind the replication of a tick
+                        // (the changes made since the previous tick travel first)
+                        if !self.last_frame_ticked && self.server_frames_since_start > 1 {
+                            let f = self.frame_no;
+                            self.viol(&["C04"], format!("dependent event {k} for client{ci} left the server in frame {f}, which did not replicate a tick: it overtakes the replication of whatever changed since the last tick"));
+                        }
+                        self.obs.inc("dependent_events_checked_to_leave_with_a_tick");
                         match wire::event_stamp(m) {
                             Some((stamp, off)) => {
                                 let want = self.clients[ci].last_upd_tick_sent;
